@@ -660,7 +660,7 @@ class Args:
         self.syms = syms or {}    # position / keyword -> sym
 
 
-MUTATORS = {'append', 'extend', 'insert', 'update', 'add', 'remove', 'pop', 'clear', 'setdefault', 'discard', 'sort', 'reverse', 'popitem'}
+MUTATORS = {'append', 'extend', 'insert', 'update', 'add', 'remove', 'pop', 'clear', 'setdefault', 'discard', 'sort', 'reverse', 'popitem', 'appendleft', 'popleft', 'extendleft'}
 
 
 def pos_of(node):
@@ -904,9 +904,7 @@ class Interp:
             return av(('cls', name))
         if name in BUILTIN_FUNCS:
             return av(('builtin', name))
-        if self.in_module_init:
-            return av(TOP)
-        raise self.err(node, 'unknown global name {!r}'.format(name))
+        return av(TOP)      # a name the analysis cannot see (star import, injected global): using it as a callee is an error, as data it is unknown
 
     def sym_of_name(self, fr, name):
         f = self.owner_frame(fr, name)
@@ -977,6 +975,9 @@ class Interp:
     st_Nonlocal = st_Global
 
     def st_Delete(self, fr, st, store, out):
+        out.next.append(store)
+
+    def st_TypeAlias(self, fr, st, store, out):
         out.next.append(store)
 
     def st_Break(self, fr, st, store, out):
@@ -4027,6 +4028,29 @@ class Interp:
                 r = self.call_value(fr, av(a[1]), merged, node)
             elif k == 'builtin':
                 r = self.call_builtin(fr, a[1], args, node)
+            elif k == 'lib' and a[1] in ('<attrgetter>', '<itemgetter>', '<methodcaller>') and args.pos:
+                r = BOT
+                target = args.pos[0]
+                for spec in a[2]:
+                    for c_ in spec:
+                        if not (is_const(c_)):
+                            raise self.err(node, 'operator.{} with a computed name'.format(a[1][1:-1]))
+                        if a[1] == '<attrgetter>':
+                            v_ = target
+                            for part in str(c_[2]).split('.'):
+                                v_ = self.load_attr(fr, v_, part, node)
+                            r = join(r, v_)
+                        elif a[1] == '<itemgetter>':
+                            r = join(r, self.index_of(fr, target, av(c_), node))
+                        else:
+                            m_ = self.load_attr(fr, target, str(c_[2]), node)
+                            if m_:
+                                r = join(r, self.call_value(fr, m_, Args(list(a[2][1:]), None, dict(a[3])), node))
+                            break
+                    if a[1] == '<methodcaller>':
+                        break
+                if len(a[2]) > 1 and a[1] != '<methodcaller>':
+                    r = av(('list', erase_tags(r)))
             elif k == 'lib' and a[1] == '<wraps>':
                 r = args.pos[0] if args.pos else av(TOP)
                 for w in r:
@@ -4919,14 +4943,14 @@ class Interp:
                         y = join(y, erase_tags(e))
                     return y
                 return es
-            if attr in ('append', 'add', 'insert'):
+            if attr in ('append', 'add', 'insert', 'appendleft'):
                 v = pos[-1] if pos else BOT
                 if attr == 'append' and k == 'seq' and a[1] == 'list' and self.summary_depth == 0 and len(a[2]) < MAX_UNROLL and v:
                     return av(NONE), ('seq', 'list', a[2] + (v,))
                 if k == 'set' or (k == 'seq' and a[1] == 'set'):
                     return av(NONE), ('set', join(elems_of(), erase_tags(v)))
                 return av(NONE), ('list', join(elems_of(), erase_tags(v)))
-            if attr in ('extend', 'update'):
+            if attr in ('extend', 'update', 'extendleft'):
                 e = elems_of()
                 for p in pos:
                     m, es = self.iteration(fr, p, node)
@@ -4940,7 +4964,7 @@ class Interp:
                 if k == 'toks':
                     return av(NONE), ('toks', a[1], None, a[3])
                 return av(NONE), None
-            if attr == 'pop':
+            if attr in ('pop', 'popleft'):
                 return elems_of(), (('toks', a[1], None, a[3]) if k == 'toks' else None)
             if attr in ('index', 'count', '__len__'):
                 return av(INT_S), None
@@ -5183,6 +5207,103 @@ class Interp:
                     return acc
                 acc = new
             raise self.err(node, 'reduce() did not stabilise')
+        if name in ('collections.defaultdict',):
+            val = BOT
+            if x is not None:
+                try:
+                    val = self.call_value(fr, frozenset(a for a in x if a != NONE), Args(), node)
+                except Unreachable:
+                    val = BOT
+            return av(('dict', None, erase_tags(val), BOT))
+        if name in ('collections.OrderedDict', 'collections.Counter'):
+            if x is None:
+                return av(('kdict', tuple((const(k), v) for k, v in args.kw.items()), None))
+            out = BOT
+            for a in x:
+                out = join(out, av(a) if a[0] in ('kdict', 'dict') else av(('dict', None, av(TOP), BOT)))
+            return out
+        if name == 'collections.deque':
+            if x is None:
+                return av(('seq', 'list', ()))
+            mode, es = self.iteration(fr, x, node)
+            if mode == 'exact':
+                return av(('seq', 'list', tuple(es)))
+            return av(('list', erase_tags(es)))
+        if name in ('itertools.islice', 'itertools.takewhile', 'itertools.dropwhile', 'itertools.filterfalse', 'itertools.compress', 'itertools.cycle',
+                    'itertools.tee', 'itertools.accumulate', 'itertools.repeat', 'itertools.pairwise', 'itertools.zip_longest', 'itertools.product',
+                    'itertools.starmap', 'itertools.batched'):
+            fn = name.split('.')[1]
+            srcs = pos[1:2] if fn in ('takewhile', 'dropwhile', 'filterfalse', 'starmap') else pos[:1]
+            if fn in ('zip_longest', 'product'):
+                srcs = pos
+            parts = []
+            for p_ in srcs:
+                mode, es = self.iteration(fr, p_, node)
+                if mode == 'exact':
+                    y = BOT
+                    for e in es:
+                        y = join(y, erase_tags(e))
+                    es = y
+                parts.append(erase_tags(es))
+            if fn == 'repeat':
+                return av(('list', erase_tags(x))) if x is not None else av(TOP)
+            if not parts or not all(parts):
+                return av(('list', BOT))
+            if fn in ('takewhile', 'dropwhile', 'filterfalse') and pos:
+                self.call_value(fr, frozenset(a for a in pos[0] if a != NONE), Args([parts[0]]), node)
+            if fn == 'starmap':
+                out = BOT
+                for a in parts[0]:
+                    if a[0] == 'seq':
+                        out = join(out, self.call_value(fr, pos[0], Args(list(a[2])), node))
+                    else:
+                        raise self.err(node, 'starmap over values of unknown shape')
+                return av(('list', erase_tags(out)))
+            if fn in ('zip_longest', 'product'):
+                return av(('list', av(('seq', 'tuple', tuple(join(p_, av(NONE)) if fn == 'zip_longest' else p_ for p_ in parts)))))
+            if fn == 'pairwise':
+                return av(('list', av(('seq', 'tuple', (parts[0], parts[0])))))
+            if fn in ('tee',):
+                return av(('seq', 'tuple', (av(('list', parts[0])), av(('list', parts[0])))))
+            if fn == 'batched':
+                return av(('list', av(('list', parts[0]))))
+            if fn == 'accumulate':
+                acc = parts[0]
+                f_ = args.kw.get('func') or (pos[1] if len(pos) > 1 else None)
+                if f_ is not None:
+                    for _ in range(6):
+                        new = join(acc, self.call_value(fr, f_, Args([acc, parts[0]]), node))
+                        if new == acc:
+                            break
+                        acc = new
+                return av(('list', erase_tags(acc)))
+            return av(('list', parts[0]))
+        if name in ('operator.attrgetter', 'operator.itemgetter', 'operator.methodcaller'):
+            return av(('lib', '<' + name.split('.')[1] + '>', tuple(pos), tuple(sorted(args.kw.items()))))
+        if name == 'dataclasses.replace' and x is not None:
+            out = BOT
+            for a in x:
+                if a[0] == 'obj' and a[1] in self.classes and self.classes[a[1]].record:
+                    ci = self.classes[a[1]]
+                    kw = {}
+                    for f_, _, init in self.record_fields(ci):
+                        if init:
+                            kw[f_] = args.kw[f_] if f_ in args.kw else self.load_attr_atom(fr, a, f_, node)
+                    if all(kw.values()):
+                        out = join(out, self.construct(fr, base_class(a[1]), Args([], None, kw), node))
+                elif a[0] == 'obj':
+                    raise self.err(node, 'dataclasses.replace() of an instance of {}'.format(a[1]))
+            return out
+        if name in ('dataclasses.asdict',) and x is not None:
+            return self.vars_of(fr, x, node)
+        if name in ('dataclasses.astuple',) and x is not None:
+            out = BOT
+            for a in self.vars_of(fr, x, node):
+                if a[0] == 'kdict':
+                    out = join(out, av(('seq', 'tuple', tuple(v for _, v in a[1]))))
+            return out
+        if name in ('dataclasses.field',):
+            return args.kw.get('default', av(NONE))
         if name in ('itertools.chain', 'itertools.chain.from_iterable'):
             srcs = pos
             if name.endswith('from_iterable') and pos:
